@@ -38,7 +38,7 @@ REGISTRY["C19"] = dict(
 
 REGISTRY["C03"] = dict(level="proof", theorems=T("C03", "C03_push_back", "C03_push_front", "C03_pop_back", "C03_pop_front", "C03_remove", "C03_truncate_back", "C03_truncate_front", "C03_push_many", "C03_drain", "C03_consequences", "C03_final_drop", "C03_history", "C03_history_ledger", "C03_history_full"), cases=P.cases_C03, projection=proj_behaviour,
                        oracles=[P.o_spec, P.o_leak, P.o_no_defect_panic])
-REGISTRY["C04"] = dict(level="proof", cross_oracles=[P.x_hash_layout_independent], theorems=T("C04", "C04_indep", "C04_push_back", "C04_push_front", "C04_pop_back", "C04_pop_front", "C04_remove", "C04_swap_remove_back", "C04_eq"), cases=P.cases_C04, projection=proj_behaviour,
+REGISTRY["C04"] = dict(level="proof", cross_oracles=[P.x_hash_layout_independent], theorems=T("C04", "C04_indep", "C04_push_back", "C04_push_front", "C04_pop_back", "C04_pop_front", "C04_remove", "C04_swap_remove_back", "C04_eq", "C04_history"), cases=P.cases_C04, projection=proj_behaviour,
                        oracles=[P.o_spec, P.o_ledger, P.o_views, P.o_no_defect_panic])
 REGISTRY["C05"] = dict(level="proof", theorems=T("C05", "C05_drop_range", "C05_truncate_back", "C05_truncate_front", "C05_clear", "C05_drain_drop", "C05_fill", "C05_clone_from", "C05_from_array"), cases=P.cases_C05, projection=proj_behaviour,
                        oracles=[P.o_ledger, P.o_views, P.o_no_defect_panic])
